@@ -370,6 +370,11 @@ func escLayouts(r *hx.Result, rng *rand.Rand, rounds int) {
 			fields = append(fields, log.String(k, v))
 		}
 		e := &log.Event{Level: log.InfoLevel, Tag: "_t", File: strings.Repeat("p/", rng.Intn(20)) + "f.go", Line: i, Fields: fields}
+		if i%4 == 1 {
+			// the header's own string values are strings of the line too: a source path with multi-byte runes (cut
+			// byte-wise by the width), quotes, backslashes
+			e.File = []string{strings.Repeat("目录/", 1+rng.Intn(20)) + "文件é.go", `C:\dir\"q"\` + strings.Repeat("s\\", rng.Intn(20)) + "f.go"}[rng.Intn(2)]
+		}
 		jb := jl.ToBytes(e)
 		tb := tl.ToBytes(e)
 		r.Eval(1)
